@@ -353,16 +353,25 @@ def g6_mapping_iter(ctx: Ctx, scope, dict_attrs: dict, rule="G6"):
         for c in f.cls.mro:
             attrs |= dict_attrs.get(c.name, set())
         for node in walk_own(f.node):
-            if isinstance(node, ast.For) and is_self_attr(node.iter) and node.iter.attr in attrs and isinstance(node.target, ast.Name):
-                n += 1
-                var = node.target.id
+            if not (isinstance(node, ast.For) and isinstance(node.target, ast.Name)):
+                continue
+            it, view = node.iter, None
+            if isinstance(it, ast.Call) and isinstance(it.func, ast.Attribute) and it.func.attr in ("values", "keys") and not it.args:
+                it, view = it.func.value, it.func.attr
+            if not (is_self_attr(it) and it.attr in attrs):
+                continue
+            n += 1
+            var = node.target.id
+            bad = []
+            if view != "values":
                 bad = [x for b in node.body for x in ast.walk(b)
                        if isinstance(x, ast.Call) and isinstance(x.func, ast.Attribute) and isinstance(x.func.value, ast.Name)
                        and x.func.value.id == var and not hasattr(str, x.func.attr)]
-                ctx.ob(rule, f"{f.short}: for {var} in self.{node.iter.attr}", not bad,
-                       "" if not bad else f"self.{node.iter.attr} is a mapping: iteration yields its string keys, "
-                       f"but the body calls {var}.{bad[0].func.attr}() (missing .values())",
-                       ctx.prog.loc(f, node), node.iter)
+            ctx.ob(rule, f"{f.short}: for {var} in self.{it.attr}", not bad,
+                   f"iterates the mapping's {'values' if view == 'values' else 'keys'}" if not bad else
+                   f"self.{it.attr} is a mapping: iteration yields its string keys, "
+                   f"but the body calls {var}.{bad[0].func.attr}() (missing .values())",
+                   ctx.prog.loc(f, node), node.iter)
     return n
 
 
